@@ -91,6 +91,19 @@ def INDEX(arr, row_num=DEFAULT, column_num=DEFAULT, area_num=DEFAULT):
         column_num = utils.parse_number(column_num)
         if isinstance(column_num, error.XLError):
             return column_num
+    if row_num is not DEFAULT and row_num < 0:
+        return error.VALUE
+    if column_num is not DEFAULT and column_num < 0:
+        return error.VALUE
+    if row_num == 0 and column_num == 0:
+        return arr
+    # a position of 0 selects the whole row/column, like an omitted one
+    if row_num == 0:
+        row_num = DEFAULT
+    if column_num == 0:
+        column_num = DEFAULT
+    if row_num is DEFAULT and column_num is DEFAULT:
+        return arr
     try:
         if row_num is DEFAULT:
             if bidimensional:
